@@ -53,7 +53,8 @@ CHECKS = {
         text=("View.tla: the four view operators as once-only actions enabled in the documented order over symbolic spectra; TLC "
               "checks the final state equals the documented pipeline, mask exactness and normalization; every option selection is "
               "run combined and chained on the real binary and compared bit for bit and with the exact expectation; the result is "
-              "read back from the destination the model drew (stdout, fresh, stale or in-place file)."),
+              "read back from the destination the model drew (stdout, fresh, stale or in-place file); axis lists are typed in "
+              "every order of naming (four-axis spectra) and removed one axis at a time in that order."),
         design_ref="DESIGN.md section 3 (C13)",
         note=("Exhaustive over option selections for shapes in the bound (quick: 1-3 axes lengths 2-3; thorough: 1-4 axes lengths "
               "1-3 and 1-2 axes lengths 2-5). Trusted: TLC, Q.class, harness npy/text parsers."),
@@ -179,7 +180,8 @@ CHECKS = {
         text=("ArrayApi.tla models indexing, axis views and the three iterators as state machines; TLC checks "
               "bijection/row-major order, view partition, 'each item once then None forever' and exact len() on "
               "every call history in the bound (next() and nth(n) calls, arrays with zero-length axes included), and every "
-              "behaviour is replayed call by call on sfs_core::array."),
+              "behaviour is replayed call by call on sfs_core::array. ArrayMem.tla: histories of writes through every mutable "
+              "access path from every constructor, the whole array read back through every read path after each step."),
         design_ref="DESIGN.md section 3 (C19)",
         note=("Exhaustive inside the bound (quick: 1-4 axes, lengths 1-3; thorough: 1-5 axes lengths 1-3, 1-3 axes "
               "lengths 1-5, 4/5-axis catalogue). Trusted: TLC, CommunityModules Json, harness comparison code."),
